@@ -27,7 +27,7 @@ TARGETS = {
     "C07": ([H, HR], [H, HR]),
     "C08": ([H, HR], [H, HR]),
     "C09": ([H, HR], [H, HR]),
-    "C14": ([H], [H, A64L, ARM]),
+    "C14": ([H, A64L], [H, A64L, ARM, A64M]),
     "C10": ([H, A64L, ARM, HR, A64M], list(extract.ALL_TARGETS) + [HR]),
     "C15": ([A64L, "aarch64-apple-darwin"], [A64L, "aarch64-apple-darwin", "aarch64-pc-windows-msvc"]),
 }
